@@ -37,8 +37,8 @@ class BasePrior(ABC):
         if not all(isinstance(p, int) for p in variable_inds):
             raise indices_type_error
 
-        if not isinstance(variable_inds, list):
-            variable_inds = list(variable_inds)
+        # (a list of its own: a list given by the caller is the caller's)
+        variable_inds = list(variable_inds)
 
         if n_parameters != len(variable_inds):
             raise ValueError(
